@@ -51,7 +51,13 @@ pub fn run(ctx: &Ctx, out: &mut Out) {
                 continue;
             }
         };
-        let horn = program_to_horn(&program);
+        let horn = if has_mixed_trait_cycle(&program) {
+            // the content judgement needs the program's logical meaning, which mixed cycles do not have
+            out.count("program_with_mixed_cycle_content_skipped");
+            None
+        } else {
+            program_to_horn(&program)
+        };
         let sig = signature(&program);
         out.count("programs");
         for gtext in goals {
